@@ -842,6 +842,10 @@ class ExprMixin:
                     return v.t
                 if v.kind == INT:
                     return pm.str_of_int(self.p, v.t)
+                if v.kind.is_obj:
+                    s = self.b_str([v], {})
+                    if s.kind == STR:
+                        return s.t
             except Unsupported:
                 pass
         return self.p.fresh('fstr', z3.StringSort())
